@@ -3941,9 +3941,16 @@ search_state_new(void) {
 
 static void
 search_postfix_clear(struct evdns_base *base) {
+	/* Only the list of domains is cleared: "ndots" is a separate setting
+	 * (options ndots:N / evdns_base_search_ndots_set) and must survive a
+	 * later "search"/"domain" line and the end-of-file default. */
+	int ndots = base->global_search_state ?
+	    base->global_search_state->ndots : 1;
 	search_state_decref(base->global_search_state);
 
 	base->global_search_state = search_state_new();
+	if (base->global_search_state)
+		base->global_search_state->ndots = ndots;
 }
 
 /* exported function */
